@@ -64,7 +64,7 @@ CHECKS = {
     "C05": dict(
         text=("Theorems (Props/C05.lean), about negate() as repaired by the fix: commit for defect D1: negate_compl — for every "
               "tree and in-bounds assignment the negated model evaluates to 1 - original (all four branches of the inward push, "
-              "with the constructor's re-sorting); negate_safe — solver-safe + boolean leaves stays solver-safe; negate_keeps_id; negate_fixed_top / negate_free_top — (finding F05b, repaired) the negation of a proposition fixed by its own variable is fixed to the opposite constant under evaluate's node-fixing rule, a free one stays free; negate_compl_fx — the complement at full strength under evaluate's node-fixing rule (evalOv with the empty dictionary), for models with fixed nodes anywhere (signs +-1, assignment in the leaf bounds, fixed nodes fixed to 0 or 1 and never of a generated id); negate_negate_eval / negate_negate_id — the negation negated once more evaluates like the model again and still carries the explicit id (the negation is a model like any other). "
+              "with the constructor's re-sorting); negate_safe — solver-safe + boolean leaves stays solver-safe; negate_keeps_id; negate_fixed_top / negate_free_top — (finding F05b, repaired) the negation of a proposition fixed by its own variable is fixed to the opposite constant under evaluate's node-fixing rule, a free one stays free; negate_compl_fx — the complement at full strength under evaluate's node-fixing rule (evalOv with the empty dictionary), for models with fixed nodes anywhere (signs +-1, assignment in the leaf bounds, fixed nodes fixed to 0 or 1 and never of a generated id); fixOk_negate / negate_negate_fx — that well-formedness survives negation, and the double negation evaluates like the model under the same rule; negate_negate_eval / negate_negate_id — the negation negated once more evaluates like the model again and still carries the explicit id (the negation is a model like any other). "
               "Tie: negate() output compared structurally (ids incl. SHA-256 generated ones, bounds, sign, value, child order, "
               "generated flag); oracle: real evaluate on original and negation over all/sampled in-bounds assignments."),
         note="Defect D1 was found by this check on the pinned tree and repaired; defect F05b (negation of a proposition fixed by its own variable kept the constant) was found in session 5 when outputs of assume() entered the stream, and repaired (known_findings.json, corpus/C05). Since the repair the complement is a theorem for models with fixed nodes anywhere (negate_compl_fx).",
